@@ -459,13 +459,9 @@ where
         };
         if let Some(preprocessor_key) = &preprocessor_key {
             if cache_control == CacheControl::Default {
-                if let Some(mut seekable) = storage
-                    .get_preprocessor_cache_entry(preprocessor_key)
-                    .await?
+                if let Some(mut preprocessor_cache_entry) =
+                    read_preprocessor_cache_entry(storage.as_ref(), preprocessor_key).await
                 {
-                    let mut buf = vec![];
-                    seekable.read_to_end(&mut buf)?;
-                    let mut preprocessor_cache_entry = PreprocessorCacheEntry::read(&buf)?;
                     let mut updated = false;
                     let hit = preprocessor_cache_entry
                         .lookup_result_digest(preprocessor_cache_mode_config, &mut updated);
@@ -680,6 +676,34 @@ const PRAGMA_GCC_PCH_PREPROCESS: &[u8] = b"pragma GCC pch_preprocess";
 const HASH_31_COMMAND_LINE_NEWLINE: &[u8] = b"# 31 \"<command-line>\"\n";
 const HASH_32_COMMAND_LINE_2_NEWLINE: &[u8] = b"# 32 \"<command-line>\" 2\n";
 const INCBIN_DIRECTIVE: &[u8] = b".incbin";
+
+/// Fetch and decode the preprocessor cache entry stored under `key`.
+///
+/// The preprocessor cache is only an optimization: an entry that cannot be
+/// fetched, read or parsed (e.g. truncated or overwritten on disk) is treated
+/// like a missing one, so that the caller falls back to running the
+/// preprocessor (and rewrites the entry afterwards) instead of failing the
+/// compilation.
+async fn read_preprocessor_cache_entry(
+    storage: &dyn Storage,
+    key: &str,
+) -> Option<PreprocessorCacheEntry> {
+    let entry = async {
+        match storage.get_preprocessor_cache_entry(key).await? {
+            Some(mut seekable) => {
+                let mut buf = vec![];
+                seekable.read_to_end(&mut buf)?;
+                Ok(Some(PreprocessorCacheEntry::read(&buf)?))
+            }
+            None => Ok(None),
+        }
+    };
+    let entry: Result<Option<PreprocessorCacheEntry>> = entry.await;
+    entry.unwrap_or_else(|e| {
+        warn!("Ignoring unusable preprocessor cache entry {}: {:?}", key, e);
+        None
+    })
+}
 
 /// Remember the include files in the preprocessor output if it can be cached.
 /// Returns `false` if preprocessor cache mode should be disabled.
